@@ -12,7 +12,7 @@ nom semantics modelled (nom 7.1.3, `complete` flavour, no `cut`, so the only err
   return a suffix of their input); the loop is a recursion on a fuel argument initialised to
   `|input| + 1`, which the completeness theorems show is never the reason for a rejection;
 * `map_res / verify` turn a rejection into `err`; `opt`, `peek`, `recognize`, `preceded`,
-  `terminated`, `delimited`, `tag`, `take_while`, `take_while1`, `digit1`, `be_u8` as in nom.
+  `terminated`, `delimited`, `tag`, `tag_no_case`, `take_while`, `take_while1`, `digit1`, `be_u8` as in nom.
 -/
 import Ldap3V.Model.Unescaper
 namespace Ldap3V.Filter
@@ -41,6 +41,21 @@ def andThen {α β : Type} (p : P α) (f : α → P β) : P β := fun i =>
 /-- `tag(t)` (complete): the input starts with `t` -/
 def tag (t : Bytes) : P Bytes := fun i =>
   if t.isPrefixOf i then .ok t (i.drop t.length) else .err
+
+/-- `lowercase_byte` of nom's `compare_no_case`: ASCII upper-case letters only -/
+def lowercaseByte (c : UInt8) : UInt8 :=
+  if 0x41 ≤ c.toNat && c.toNat ≤ 0x5A then c - 0x41 + 0x61 else c
+
+/-- `compare_no_case(t) == CompareResult::Ok`: no position of the zip differs after lower-casing
+and the input is at least as long as the tag -/
+def eqNoCase : Bytes → Bytes → Bool
+  | [], _ => true
+  | _ :: _, [] => false
+  | a :: t, b :: i => lowercaseByte b == lowercaseByte a && eqNoCase t i
+
+/-- `tag_no_case(t)` (complete); the output is the slice of the *input* -/
+def tagNoCase (t : Bytes) : P Bytes := fun i =>
+  if eqNoCase t i then .ok (i.take t.length) (i.drop t.length) else .err
 
 /-- `alt((p, q))`: `q` is tried only when `p` returns `Err::Error` -/
 def alt {α : Type} (p q : P α) : P α := fun i =>
@@ -253,14 +268,14 @@ def extensibleTag (mrule attr : Option Bytes) (value : Bytes) (dn : Bool) : Tag 
 
 def attrDnMrule : P Tag :=
   andThen attributedescription fun attr =>
-  andThen (opt (terminated (tag [0x3A, 0x64, 0x6E]) (peek (tag [0x3A])))) fun dn =>
+  andThen (opt (terminated (tagNoCase [0x3A, 0x64, 0x6E]) (peek (tag [0x3A])))) fun dn =>
   andThen (opt (preceded (tag [0x3A]) attributetype)) fun mrule =>
   andThen (tag [0x3A, 0x3D]) fun _ =>
   andThen unescaped fun value =>
   ret (extensibleTag mrule (some attr) value dn.isSome)
 
 def dnMrule : P Tag :=
-  andThen (opt (terminated (tag [0x3A, 0x64, 0x6E]) (peek (preceded (tag [0x3A]) attributetype)))) fun dn =>
+  andThen (opt (terminated (tagNoCase [0x3A, 0x64, 0x6E]) (peek (preceded (tag [0x3A]) attributetype)))) fun dn =>
   andThen (preceded (tag [0x3A]) attributetype) fun mrule =>
   andThen (tag [0x3A, 0x3D]) fun _ =>
   andThen unescaped fun value =>
